@@ -244,9 +244,11 @@ func genConfig(c *ctx) {
 		}
 	}()
 	addr4 := []string{"0.0.0.0", "192.0.2.1", "192.0.2.1:67", "192.0.2.1:6767", ":67", "127.0.0.1:0", "224.0.0.1", "224.0.0.1%lo", "%lo", "%eth7:67", "192.0.2.1%lo", "255.255.255.255",
-		"::ffff:192.0.2.1", "[::ffff:192.0.2.1]:67", "2001:db8::1", "garbage", "192.0.2.1:port", "1.2.3.4:99999", "1.2.3.4:-1", "192.0.2.300", "", "[192.0.2.1]:67", "192.0.2.1:67:68", "1.2.3.4%a%b"}
+		"::ffff:192.0.2.1", "[::ffff:192.0.2.1]:67", "2001:db8::1", "garbage", "192.0.2.1:port", "1.2.3.4:99999", "1.2.3.4:-1", "192.0.2.300", "", "[192.0.2.1]:67", "192.0.2.1:67:68", "1.2.3.4%a%b",
+		"239.1.2.3", "239.255.255.250:67", "224.0.1.1", "232.0.0.1%lo"}
 	addr6 := []string{"::", "[::]:547", "[2001:db8::1]:5470", "2001:db8::1", "[2001:db8::1]", "[fe80::1%lo]:547", "fe80::1%lo", "[ff02::1:2]", "[ff02::1:2%lo]:547", "ff02::1:2", "ff05::1:3", "ff01::1",
-		"%lo", "[::]:port", "192.0.2.1", "[192.0.2.1]:547", "::ffff:192.0.2.1", "garbage", "[::1", "::1]:547", ":547", "[]:547", "[::1]:547:1", "2001:db8::g"}
+		"%lo", "[::]:port", "192.0.2.1", "[192.0.2.1]:547", "::ffff:192.0.2.1", "garbage", "[::1", "::1]:547", ":547", "[]:547", "[::1]:547:1", "2001:db8::g",
+		"[ff05::1:3]", "[ff05::1:3]:547", "[ff0e::1]", "[ff08::5%lo]", "[ff05::1:3%lo]:547"}
 	plugItem := func() string {
 		switch c.rng.Intn(14) {
 		case 0:
